@@ -4,6 +4,7 @@ import OFModel.Config.Base
 import OFModel.Config.IO
 import OFModel.Config.Webvis
 import OFModel.Config.REST
+import OFModel.Config.Util
 open Lean Driver OF.Config
 namespace Driver.C11
 
@@ -165,6 +166,7 @@ def normalizeClass (cls : String) (env : Env) (c : Dict) : R (Except Err Dict) :
   | "ImageOut" => return normalizeImageOut env c
   | "Webvis" => return normalizeWebvis env c
   | "Recorder" => return normalizeRecorder env c
+  | "Util" => return normalizeUtil env c
   | "REST" => return normalizeREST true env c
   | "REST:pinned" => return normalizeREST false env c
   | _ => throw s!"class {cls} is not modelled"
